@@ -209,4 +209,6 @@ func c19Extra(r *core.Run, pkg string) {
 		}
 		o.Site(n, pkg)
 	})
+
+	c19R8(r, pkg)
 }
